@@ -40,6 +40,7 @@ class CallLog:
         self.method_calls: dict[int, int] = {}     # id(node) -> invocations of its map_* method
         self.method_order: list[int] = []
         self.instance_calls: dict[tuple[int, int], int] = {}
+        self.rec_results: dict[int, list[Any]] = {}    # id(input node) -> result of every rec() on it
         # table extraction: only the probe node's own method runs; calls on its
         # children are recorded and answered by a neutral stand-in, so a refusal
         # or omission is attributed to exactly one (mapper, kind) row
@@ -89,7 +90,10 @@ def logging_class(cls: type, log_getter: Callable[[], CallLog | None]) -> type:
             try:
                 if stub:
                     return _stand_in(self, expr)
-                return super().rec(expr, *a, **kw)
+                res = super().rec(expr, *a, **kw)
+                # what THIS use of `expr` was mapped to (cache hit or miss alike)
+                lg.rec_results.setdefault(id(expr), []).append(res)
+                return res
             finally:
                 lg.exit()
 
